@@ -162,6 +162,11 @@ def judge(case, vd, ref, r, cfg):
     if r.status == "panic":
         vd.add("panic", config=cfgs, text=r.panic_text[-1500:])
         return
+    if r.map_races:
+        # two live goroutines on one package-level map, at least one writing, not both under a mutex: in the real,
+        # parallel binary the Go runtime ends the process with "fatal error: concurrent map ..." when they meet
+        vd.add("unsynchronised-shared-map", config=cfgs, maps=r.map_races[:4])
+        return
     if r.guard_hits:
         vd.skipped = "write-guard"
         return
